@@ -1,6 +1,7 @@
 package gaussian
 
 import (
+	"errors"
 	"fmt"
 	"math"
 	"strconv"
@@ -244,6 +245,9 @@ func NewCalculator(
 		totalWeight := 0.0
 		for _, weight := range weights {
 			totalWeight += weight
+		}
+		if totalWeight <= 0 {
+			return nil, errors.New("weights must add up to a positive number")
 		}
 		averageWeight = totalWeight / float64(len(weights))
 	}
